@@ -176,6 +176,9 @@ def run_c17(tier, seed, replay):
     per_net = 12 if tier == "thorough" else 4
     runs = []
     arch_jobs = []
+    if replay:
+        rp = json.load(open(replay))
+        runs, arch_jobs, nets = rp["runs"], rp["arch_jobs"], []
     for m in nets:
         fm = formats_of(m, wd)
         for j in range(per_net):
@@ -313,7 +316,9 @@ def run_c17(tier, seed, replay):
                          {"samples": samples, "scenarios": {"%s/%s" % k: v for k, v in hist.items()},
                           "mode_A_cli": {"module": "spec/MC_Cli.tla", "states": da, "invariants": "InOrder, FailQuiet, Complete; liveness Terminates"},
                           "rule": "seeded runs of the hctl-model-checker binary built from the working tree: model as aeon / bnet / sbml, formula files with comment / blank / indented lines, every print option, optional -o and -e archives, and failure scenarios; stdout lines consumed path-wise by TLC against the state machine of spec/Cli.tla (spec/Trace_Cli.tla); a run without an accepting state is rejected"},
-                         ASSUME_CLI, lambda it, failed: {"property": "C17", "failed_judgements": failed, "recorded": byid[it["id"]]})
+                         ASSUME_CLI, lambda it, failed: {"property": "C17", "failed_judgements": failed, "recorded": byid[it["id"]],
+                                                         "runs": [r for r in runs if r["id"] == it["id"]],
+                                                         "arch_jobs": [j for j in arch_jobs if j["id"] == it["id"]]})
 
 
 # ----------------------------------------------------------------------------- C19
@@ -332,6 +337,10 @@ def conv_networks(rng, count):
         regs = "a -?? t\nb -?? t\n" + ("%s -?? t\n" % clash if clash in fn else "t -?? %s\n" % clash)
         extra = rng.choice(["", "a -> b\n", "$a: g(b)\nb -?? a\n", "b -?? a\n"])
         out.append(regs + "$t: " + fn + "\n" + extra)
+    # arguments of an uninterpreted function that are expressions, constants or nested applications
+    for i in range(max(4, count // 8)):
+        fn = rng.choice(["f(g(a))", "f(!a, b)", "f(a & b)", "f(a, true)", "f(g(a), g(b))", "g(f(a, b))", "f(a | b, !b) & !f(b, a)", "f(false) | a", "f(g(b)) ^ g(a)"])
+        out.append("a -?? t\nb -?? t\n$t: " + fn + "\n" + rng.choice(["", "a -> b\n", "t -| a\n"]))
     out += ["b_1 -> b\nb_0 -> b_1\nb -> b_0\n", "a -> b\n$b: f(a)\n$a: k\n", "a -?? a\n$a: f(a, a) | !g(a)\nb -> a\n",
             "a -> c\nb -| c\nc -? a\n$b: true\n", "a -> b\n$b: f(a) & f(!a)\n$a: a\na -?? a\n"]
     return out
